@@ -11,6 +11,12 @@ networkx on plain integer graphs only as a second opinion *between the reference
  * is_bond_in_ring                every bond                      (<=> the bond is not a bridge)
  * connected_atoms / bonds_with_atom / n_bonds_with_atom / bonded_valence     every atom
  * match / get_substr_indices     the set of returned maps == the set of induced embeddings
+
+Besides the graph space (complete up to 6 vertices, sampled up to 40 atoms) the 'dyn' chunks vary the other dimensions:
+object state (receiver and pattern edited between two calls, also with edits that keep the numbers of atoms and bonds),
+receivers that are views (Conformer, Substructure) or whose atoms were handed to another object, several traversals alive
+at once, the AtomLike forms (Atom, index, numpy integer, label, Element), caller-supplied matchers, large answers and
+patterns in several pieces.
 """
 from __future__ import annotations
 
@@ -32,8 +38,20 @@ RULE = ("(a) every labelled simple graph on 1..6 vertices (33 867 graphs, comple
         "(trees, ring systems, fused rings, disconnected, G(n,p)) with random elements, bond types, stereo, labels, isotopes; "
         "patterns = random connected induced subgraphs (1..8 atoms) with some elements set to Unknown, once with wildcard "
         "bonds (deciding) and once with the target's own atom/bond attributes copied (soundness + generating embedding). "
-        "A case = one graph (resp. one target graph with all its patterns); non-trivial = the graph has >= 1 cycle or >= 2 "
-        "components; distinct by (vertex count, edge set[, elements]).")
+        "(e) object state and receivers ('dyn' cases, seeded graphs of 5..13 atoms, receiver class rotating): the same receiver "
+        "and the same pattern objects are queried again after every edit of a seeded sequence - target edits (bond moved = "
+        "delete+add, bond end re-pointed, element / bond type changed, connect_like with as many bonds, bond / atom added / "
+        "deleted) alternating with pattern edits - all queries and match / get_substr_indices being decided against the "
+        "graphs the objects expose at the time of the call; then on views (Conformer of the ensemble, made before the edits; "
+        "Substructure on a seeded atom subset in seeded order) and on the receiver after its atoms were handed to another "
+        "live object; traversals stepped in turn with ring / adjacency queries between the steps (2..7 generators alive on "
+        "the same and on another object); match with a caller's node_match alone, edge_match alone (a laxer and a stricter "
+        "predicate each) and both, decided against the reference under that predicate; star / complete-bipartite targets "
+        "with 1000..2200 embeddings. AtomLike arguments rotate over Atom, index, numpy integer, label and Element (the last two "
+        "where they name that atom). Patterns in several pieces: every one on <=3 vertices (quick: a rotating sixth per "
+        "target) and random ones in (e). Targets carry every Atom field (geom, formal_spin, attrib included). "
+        "A case = one graph (resp. one target graph with all its patterns / one edit sequence); non-trivial = the graph has "
+        ">= 1 cycle or >= 2 components; distinct by (vertex count, edge set[, elements]).")
 ASSUMPTIONS = [
     "the graph under test is the one the receiver exposes through .atoms/.bonds (Bond.a1/.a2 by identity); it is checked "
     "to be the simple graph that was requested, otherwise the chunk is inconclusive (construction is not this property)",
@@ -46,6 +64,14 @@ ASSUMPTIONS = [
     "of the generating embedding are required (bond types Single/Double/Triple/Aromatic/Amide/Unknown only)",
     "reference = vmon/models/graphref.py (stdlib only); networkx bridges / GraphMatcher on integer graphs must agree with "
     "it, a disagreement aborts the chunk as a harness error",
+    "a label or an Element given as AtomLike names the first atom of the receiver's own atom list that carries it (the "
+    "documented rule of get_atom); Bond.a1 / Bond.a2 / Bond.btype / Atom.element are assignable public fields",
+    "caller-supplied matchers: the given predicate replaces the library's rule for atoms (resp. bonds) only; the other rule "
+    "stays the library's, which is exercised there only in its wildcard form (plain pattern atoms resp. BondType.Unknown "
+    "bonds); the predicates used are symmetric, so nothing is assumed on the order (target, pattern) of their arguments; "
+    "they read the keys 'element', 'formal_charge', 'btype' of the attribute dictionaries (to_nxgraph: all fields)",
+    "a pattern bond of BondType.Single (plain connect()) against bonds of higher order is NOT decided (typed patterns: "
+    "soundness + generating embedding only) - the docstrings do not state the rule",
 ]
 CHUNK_TIMEOUT = 900
 TECHNIQUE = ("runtime monitoring: differential oracle (own BFS / bridge finder / brute-force induced embeddings, networkx as "
@@ -82,6 +108,27 @@ def REQUIRED(tier):
         "rand.typed.generating-present": 700 if q else 14000,
         "ref.nx.bridges": 30000, "ref.nx.dist": 30000, "ref.nx.embeddings": 25000, "ref.bt-vs-brute": 25000,
         **({} if q else {"exh7.graphs": 200000}),
+        # AtomLike forms other than Atom / index (start or atom argument; direction argument)
+        **{k: v * (1 if q else 5) for k, v in {
+            "arg-form.label": 7000, "arg-form.Element": 15000, "arg-form.numpy-int": 14000,
+            "arg-form.direction.label": 20000, "arg-form.direction.Element": 40000}.items()},
+        # patterns in several pieces
+        "match.pairs.disconnected-pattern": 10000 if q else 120000,
+        # object state, views, lent atoms, interleaved traversals, caller-supplied matchers, large answers ('dyn' cases)
+        **{k: v * (1 if q else 10) for k, v in {
+            "dyn.cases": 160, "dyn.match.decide": 1000, "dyn.match.after-edit": 800,
+            "dyn.match.answer-changed-by-target-edit": 120, "dyn.match.answer-changed-by-pattern-edit": 90,
+            "dyn.target-edit.counts-kept": 100, "dyn.target-edit.bond-moved": 25, "dyn.target-edit.bond-repointed": 25,
+            "dyn.target-edit.element-changed": 15, "dyn.target-edit.connect_like": 3,
+            "dyn.pattern-edit.element-changed": 25, "dyn.pattern-edit.bond-moved": 15, "dyn.pattern-edit.atom-added": 10,
+            "dyn.match.disconnected-pattern": 100,
+            "recv.conformer": 70, "recv.substructure": 80, "view.conformer": 30, "view.substructure": 80,
+            "view.match.decide": 300, "lent-atoms.receivers": 80, "lent-atoms.match.decide": 150,
+            "interleaved.traversal.with-another-alive": 600, "interleaved.ring-query": 1200,
+            "user-matcher.edge_match-given-alone": 300, "user-matcher.node_match-given-alone": 300,
+            "user-matcher.both-matchers-given": 150, "user-matcher.expected-nonempty": 400,
+            "user-matcher.expected-empty": 120, "ref.nx.embeddings-under-predicates": 200,
+            "match.large-answer": 8}.items()},
     }
 
 
@@ -102,6 +149,9 @@ def plan(tier, seed):
     nrand, per = (300, 15) if quick else (6000, 60)
     for lo, hi in _split(nrand, nrand // per):
         specs.append({"kind": "rand", "lo": lo, "hi": hi})
+    ndyn, per = (160, 10) if quick else (1600, 20)
+    for lo, hi in _split(ndyn, ndyn // per):
+        specs.append({"kind": "dyn", "lo": lo, "hi": hi})
     xm = {"kind": "xmatch", "pmin": 1, "pmax": 3, "elmode": "all", "calls": 2}
     if not quick:
         # (C) every pattern on <=4 vertices against every graph on 5 vertices (one seeded element assignment each)
@@ -144,6 +194,9 @@ class Lib:
         self.bstereo = ["Unknown", "NotStereogenic", "E", "Z", "Axial_R", "Axial_S"]
         self.astereo = [s.name for s in AtomStereo]
         self.atypes = [t.name for t in AtomType]
+        self.ageoms = [g.name for g in AtomGeom]
+        import numpy
+        self.np = numpy
         self.cls = {"conn": Connectivity, "mol": Molecule, "ens": ConformerEnsemble}
 
 
@@ -153,7 +206,10 @@ def atom_spec(rng, element, rich):
         return {"element": element}
     return {"element": element, "isotope": rng.choice([None, None, 1, 2, 13]),
             "label": rng.choice([None, "", "a", "C1", "x y"]), "stereo": rng.choice(LIB.astereo),
-            "atype": rng.choice(LIB.atypes), "formal_charge": rng.choice([0, 0, 1, -1])}
+            "atype": rng.choice(LIB.atypes), "formal_charge": rng.choice([0, 0, 1, -1]),
+            # fields that say nothing about elements or bonds: no query of the property may depend on them
+            "geom": rng.choice(LIB.ageoms), "formal_spin": rng.choice([0, 0, 1, 2]),
+            "attrib": rng.choice([{}, {}, {"k": 1}, {"note": "x", "w": [1, 2]}])}
 
 
 def bond_spec(rng, i, j, rich, btypes=None):
@@ -171,6 +227,9 @@ def mk_atom(spec):
     if "isotope" in spec:
         kw = dict(isotope=spec["isotope"], label=spec["label"], stereo=L.AtomStereo[spec["stereo"]],
                   atype=L.AtomType[spec["atype"]], formal_charge=spec["formal_charge"])
+        if "geom" in spec:
+            kw.update(geom=L.AtomGeom[spec["geom"]], formal_spin=spec["formal_spin"],
+                      attrib={k: (list(v) if isinstance(v, list) else v) for k, v in spec["attrib"].items()})
     return L.Atom(L.Element[spec["element"]], **kw)
 
 
@@ -246,6 +305,35 @@ def _exc(e):
 def take(gen, bound):
     """at most `bound` items of a generator (a broken traversal may never stop)"""
     return list(itertools.islice(gen, bound + 1))
+
+
+START_FORMS = ("Atom", "int", "Atom", "int", "label", "Element", "numpy-int")
+DIR_FORMS = ("int", "Atom", "Atom", "label", "Element")
+
+
+def first_occurrences(atoms):
+    """what a label / an Element given as AtomLike stands for: the first atom of the receiver's list that carries it"""
+    first_label, first_element = {}, {}
+    for i, a in enumerate(atoms):
+        if isinstance(a.label, str):
+            first_label.setdefault(a.label, i)
+        first_element.setdefault(a.element, i)
+    return first_label, first_element
+
+
+def atom_arg(atoms, i, form, firsts, fallback="Atom"):
+    """(form used, argument) naming atom i of the receiver in the requested AtomLike form (fallback where the form
+    would name another atom)"""
+    a = atoms[i]
+    if form == "label" and isinstance(a.label, str) and firsts[0].get(a.label) == i:
+        return "label", a.label
+    if form == "Element" and firsts[1].get(a.element) == i:
+        return "Element", a.element
+    if form == "numpy-int":
+        return "numpy-int", LIB.np.int64(i)
+    if form in ("label", "Element"):
+        form = fallback
+    return (form, a) if form == "Atom" else ("int", i)
 
 
 def judge_traversal(ctx, op, items, with_dist, idx, s, expected, alt, info):
@@ -324,11 +412,14 @@ def check_queries(ctx, x, kind, n, adj, salt, info0, gref):
     bound = 2 * n + 4
     dist_from, br = gref["dist_from"], gref["bridges"]
     bid = {id(b): k for k, b in enumerate(bonds)}
+    firsts = first_occurrences(atoms)
 
     for s in range(n):
-        by_atom = (s + salt) % 2 == 0
-        a_s = atoms[s] if by_atom else s
-        info = dict(info0, start=s, arg="Atom" if by_atom else "int")
+        # AtomLike forms rotate over the starts: Atom, index, numpy integer, label, Element
+        form_s, a_s = atom_arg(atoms, s, START_FORMS[(s + salt) % len(START_FORMS)], firsts,
+                               fallback="Atom" if (s + salt) % 2 == 0 else "int")
+        ctx.count("arg-form." + form_s)
+        info = dict(info0, start=s, arg=form_s)
         exp = {v: d for v, d in dist_from[s].items() if v != s}
         # --- undirected
         for op, with_dist in (("bfsd", True), ("bfs", False)):
@@ -344,9 +435,10 @@ def check_queries(ctx, x, kind, n, adj, salt, info0, gref):
         for d in sorted(adj[s]):
             thr = R.through(adj, s, d)
             alt = {v: dist_from[s][v] for v in thr}
-            d_by_atom = (d + salt) % 3 != 0
-            a_d = atoms[d] if d_by_atom else d
-            infod = dict(info, direction=d, dir_arg="Atom" if d_by_atom else "int")
+            form_d, a_d = atom_arg(atoms, d, DIR_FORMS[(d + salt) % len(DIR_FORMS)], firsts)
+            if form_d in ("label", "Element"):
+                ctx.count("arg-form.direction." + form_d)
+            infod = dict(info, direction=d, dir_arg=form_d)
             for op, with_dist in (("bfsd-dir", True), ("bfs-dir", False)):
                 f = x.yield_bfsd if with_dist else x.yield_bfs
                 ctx.count(op[:-4] + ".directed")
@@ -592,13 +684,14 @@ def chunk_exh7(spec, ctx):
         ctx.count("exh7.graphs")
 
 
-def all_patterns(pmin, pmax):
-    """(pn, edges, labels) for every connected labelled graph on pmin..pmax vertices x every assignment over {C,N,Unknown}"""
+def all_patterns(pmin, pmax, connected=True):
+    """(pn, edges, labels) for every connected (resp. every disconnected) labelled graph on pmin..pmax vertices x every
+    assignment over {C,N,Unknown}"""
     R = REF
     out = []
     for pn in range(pmin, pmax + 1):
         pairs = R.pair_list(pn)
-        for mask in R.connected_masks(pn):
+        for mask in (R.connected_masks(pn) if connected else R.disconnected_masks(pn)):
             pedges = R.edges_of_mask(pn, mask, pairs)
             for lab in itertools.product(("C", "N", WILD), repeat=pn):
                 out.append((pn, mask, pedges, lab))
@@ -616,6 +709,14 @@ def chunk_xmatch(spec, ctx):
         padj = R.adjacency(pn, pedges)
         pobj = build_pattern("conn" if pi % 2 == 0 else "mol", plab, pedges)
         pats.append((pi, pn, pmask, pedges, plab, padj, pobj))
+    # patterns in several pieces (<= 3 vertices): the definition of an induced embedding does not need connectedness
+    # (non-bonded pattern atoms go to non-bonded atoms).  Quick tier: every target meets a rotating sixth of them.
+    dpats = []
+    if spec["pmin"] == 1:
+        for pi, (pn, pmask, pedges, plab) in enumerate(all_patterns(2, 3, connected=False)):
+            dpats.append((pi, pn, pmask, pedges, plab, R.adjacency(pn, pedges),
+                          build_pattern("mol" if pi % 2 == 0 else "conn", plab, pedges)))
+    dstride = 6 if ctx.tier == "quick" else 1
     for mask in range(spec["lo"], spec["hi"]):
         edges = R.edges_of_mask(tn, mask, pairs)
         tadj = R.adjacency(tn, edges)
@@ -668,8 +769,27 @@ def chunk_xmatch(spec, ctx):
                 if both or (pi + rot) % 2 == 1:
                     x, idx = recv[k2]
                     check_match(ctx, x, k2, pobj, idx, padj, plab, tadj, tlab, expected, info, do_substr=False)
+            drot = rng.randrange(dstride)
+            for (pi, pn, pmask, pedges, plab, padj, pobj) in dpats:
+                if (pi + drot) % dstride:
+                    continue
+                expected = R.embeddings_brute(padj, plab, tadj, tlab, WILD)
+                ctx.count("match.pairs.disconnected-pattern")
+                ctx.count("match.expected-nonempty" if expected else "match.expected-empty")
+                if (pi + rot) % 4 == 0:
+                    R.cross_check_embeddings(pn, pedges, plab, tn, edges, tlab, WILD, expected)
+                    ctx.count("ref.nx.embeddings")
+                info = {"target": {"n": tn, "edges": [list(e) for e in edges], "elements": list(tlab)},
+                        "pattern": {"n": pn, "edges": [list(e) for e in pedges], "elements": list(plab),
+                                    "connected": False},
+                        "expected": sorted(expected)[:12]}
+                k1 = KINDS[(pi + rot) % 3]
+                x, idx = recv[k1]
+                check_match(ctx, x, k1, pobj, idx, padj, plab, tadj, tlab, expected, info,
+                            do_match=(pi + rot) % 2 == 0, do_substr=(pi + rot) % 2 == 1)
 
 
+RAND_CAP = 4000  # reference enumeration limit of the random part (cases beyond it are counted as skipped)
 RAND_BTYPES = ["Single"] * 40 + ["Double"] * 20 + ["Aromatic"] * 20 + ["Triple"] * 8 + ["Amide"] * 6 + ["Unknown"] * 6
 PALETTES = [("C", "H"), ("C", "N", "O"), ("C", "C", "C", "N"), ("C", "N", "O", "S", "P", "F", "Cl"), ("Si", "O"),
             ("C",), ("Fe", "C", "N", "Pd")]
@@ -758,11 +878,12 @@ def chunk_rand(spec, ctx):
             pw = rng.choice([0.0, 0.3, 0.3, 0.6, 1.0])
             plab = [WILD if rng.random() < pw else tlab[v] for v in verts]
             try:
-                expected = R.embeddings_bt(padj, plab, adj, tlab, WILD, cap=600)
+                expected = R.embeddings_bt(padj, plab, adj, tlab, WILD, cap=RAND_CAP)
             except R.TooMany:
                 ctx.count("rand.match.skipped-too-many-embeddings")
                 continue
             made += 1
+            big = len(expected) > 600
             if tuple(verts) not in set(expected):
                 raise R.ReferenceDisagreement(f"generating embedding {verts} not found by the reference")
             R.cross_check_embeddings(pn, pedges, plab, n, edges, tlab, WILD, expected)
@@ -777,6 +898,15 @@ def chunk_rand(spec, ctx):
             ctx.count("match.expected-nonempty")
             # (1) deciding: wildcard bonds
             pobj = build_pattern("conn" if t % 2 else "mol", plab, pedges)
+            if big:
+                # many embeddings ("none missed" has no upper limit): decided once, through one entry point
+                kind = KINDS[(g + t) % 3]
+                x, idx = recv[kind]
+                ctx.count("rand.match.decide")
+                ctx.count("rand.match.decide.more-than-600-embeddings")
+                check_match(ctx, x, kind, pobj, idx, padj, plab, adj, tlab, expected, info,
+                            do_match=t % 2 == 0, do_substr=t % 2 == 1)
+                continue
             for kind in KINDS:
                 x, idx = recv[kind]
                 ctx.count("rand.match.decide")
@@ -815,6 +945,527 @@ def chunk_rand(spec, ctx):
             check_match(ctx, x, KINDS[g % 3], pobj, idx, [set()], plab, adj, tlab, [], info)
 
 
+# ---------------------------------------------------------------------------------------------
+# object state, views, interleaving, argument forms, caller-supplied matchers ("dyn" chunks)
+
+DYN_PALETTES = [("C", "N"), ("C", "N", "O"), ("C", "C", "C", "O"), ("C", "H"), ("C",), ("C", "N", "O", "S")]
+DYN_STEPS = 4
+
+
+def state_of(x):
+    """the graph an object exposes NOW through its public accessors"""
+    atoms, bonds, idx, edges = graph_of(x)
+    return {"atoms": atoms, "bonds": bonds, "idx": idx, "edges": edges, "n": len(atoms),
+            "adj": REF.adjacency(len(atoms), edges), "lab": [a.element.name for a in atoms]}
+
+
+def wild_kw():
+    L = LIB
+    return dict(btype=L.BondType.Unknown, stereo=L.BondStereo.Unknown, label=None)
+
+
+def edit_graph(rng, x, palette, wild, allow_atoms, max_atoms):
+    """one edit of a live object through the public API (wild: a pattern - plain atoms, wildcard bonds).
+    Returns the name of the edit; the exposed graph afterwards must be the requested one (else harness error)."""
+    L = LIB
+    st = state_of(x)
+    n, atoms, bonds, edges, adj, idx = st["n"], st["atoms"], st["bonds"], st["edges"], st["adj"], st["idx"]
+    present = [frozenset(e) for e in edges]
+    have = set(present)
+    free = [(i, j) for i in range(n) for j in range(i + 1, n) if frozenset((i, j)) not in have]
+    repoint = [(k, keep, v) for k, (i, j) in enumerate(edges) for keep in (i, j) for v in range(n)
+               if v != keep and v not in adj[keep]]
+
+    def new_bond_kw(i, j):
+        return wild_kw() if wild else bond_kw(bond_spec(rng, i, j, rich=True, btypes=RAND_BTYPES))
+
+    def new_atom(el):
+        return L.Atom(L.Element[el]) if wild else mk_atom(atom_spec(rng, el, rich=True))
+
+    menu = ["element-changed", "element-changed"]
+    if bonds and free:
+        menu += ["bond-moved"] * 3
+    if repoint:
+        menu += ["bond-repointed"] * 3
+    if bonds:
+        menu += ["connect_like", "bond-deleted"]
+        if not wild:
+            menu += ["bond-type-changed"]
+    if free:
+        menu += ["bond-added"]
+    if allow_atoms and n >= 3:
+        menu += ["atom-deleted"]
+    if allow_atoms and n < max_atoms:
+        menu += ["atom-added"]
+    what = rng.choice(menu)
+    exp_edges, exp_lab = list(present), list(st["lab"])
+    if what == "element-changed":
+        i = rng.randrange(n)
+        new = rng.choice([e for e in list(palette) + ["S", "P"] if e != exp_lab[i]])
+        atoms[i].element = new if rng.random() < 0.5 else L.Element[new]
+        exp_lab[i] = new
+    elif what == "bond-moved":
+        # delete + add with no query in between: the numbers of atoms and bonds are the same afterwards
+        k = rng.randrange(len(bonds))
+        i, j = rng.choice(free)
+        if rng.random() < 0.5:
+            i, j = j, i
+        x.del_bond(bonds[k])
+        if rng.random() < 0.5:
+            x.connect(i, j, **new_bond_kw(i, j))
+        else:
+            x.connect(atoms[i], atoms[j], **new_bond_kw(i, j))
+        del exp_edges[k]
+        exp_edges.append(frozenset((i, j)))
+    elif what == "bond-repointed":
+        k, keep, v = rng.choice(repoint)
+        b = bonds[k]
+        if idx[id(b.a1)] == keep:
+            b.a2 = atoms[v]
+        else:
+            b.a1 = atoms[v]
+        exp_edges[k] = frozenset((keep, v))
+    elif what == "bond-type-changed":
+        b = rng.choice(bonds)
+        b.btype = L.BondType[rng.choice([t for t in TYPED_OK if t != b.btype.name])]
+        if rng.random() < 0.3:
+            b.f_order = rng.choice([0.5, 1.5, 2.0])
+    elif what == "connect_like":
+        # another object with the same elements and as many bonds, placed elsewhere
+        perm = list(range(n))
+        rng.shuffle(perm)
+        other = L.Connectivity([L.Atom(L.Element[e]) for e in exp_lab])
+        exp_edges = []
+        for e in present:
+            i, j = sorted(e)
+            other.connect(perm[i], perm[j], **new_bond_kw(i, j))
+            exp_edges.append(frozenset((perm[i], perm[j])))
+        x.connect_like(other)
+    elif what == "bond-deleted":
+        k = rng.randrange(len(bonds))
+        x.del_bond(bonds[k])
+        del exp_edges[k]
+    elif what == "bond-added":
+        i, j = rng.choice(free)
+        x.connect(i, j, **new_bond_kw(i, j))
+        exp_edges.append(frozenset((i, j)))
+    elif what == "atom-deleted":
+        i = rng.randrange(n)
+        x.del_atom(atoms[i] if rng.random() < 0.5 else i)
+        ren = {v: v - (v > i) for v in range(n) if v != i}
+        exp_edges = [frozenset(ren[v] for v in e) for e in present if i not in e]
+        del exp_lab[i]
+    elif what == "atom-added":
+        el = rng.choice(list(palette))
+        a = new_atom(el)
+        x.append_atom(a)
+        j = rng.randrange(n)
+        x.connect(a, j, **new_bond_kw(n, j))
+        exp_edges.append(frozenset((n, j)))
+        exp_lab.append(el)
+    st2 = state_of(x)
+    got = sorted(sorted(e) for e in st2["edges"])
+    if got != sorted(sorted(e) for e in exp_edges) or st2["lab"] != exp_lab:
+        raise RuntimeError(f"harness: after {what} the object exposes {st2['edges']} / {st2['lab']}, "
+                           f"requested {sorted(sorted(e) for e in exp_edges)} / {exp_lab}")
+    return what
+
+
+def subset_pattern(rng, st, k, cls_name, pw, connected=True):
+    """wildcard-bond pattern object drawn from the graph as it is now (induced on a random vertex subset)"""
+    R = REF
+    if connected:
+        verts = R.random_connected_subset(rng, st["adj"], k)
+    else:
+        verts = rng.sample(range(st["n"]), min(k, st["n"]))
+    pedges = R.induced(verts, st["adj"])
+    plab = [WILD if rng.random() < pw else st["lab"][v] for v in verts]
+    return build_pattern(cls_name, plab, pedges)
+
+
+def match_objects(ctx, x, kind, pats, info0, counter, cap=1500, xref=False, **kw):
+    """decide match / get_substr_indices of live pattern objects on a live receiver: both are read through the public
+    accessors at the time of the call.  Returns {role: expected set}"""
+    R = REF
+    st = state_of(x)
+    answers = {}
+    for role, p in pats:
+        ps = state_of(p)
+        try:
+            expected = R.embeddings_bt(ps["adj"], ps["lab"], st["adj"], st["lab"], WILD, cap=cap)
+        except R.TooMany:
+            ctx.count("dyn.match.skipped-too-many-embeddings")
+            continue
+        if xref:
+            R.cross_check_embeddings(ps["n"], ps["edges"], ps["lab"], st["n"], st["edges"], st["lab"], WILD, expected)
+            ctx.count("ref.nx.embeddings")
+        answers[role] = frozenset(expected)
+        ctx.count(counter)
+        ctx.count("match.expected-nonempty" if expected else "match.expected-empty")
+        if len(R.components(ps["n"], ps["adj"])) > 1:
+            ctx.count("dyn.match.disconnected-pattern")
+        info = dict(info0, pattern_role=role,
+                    target={"n": st["n"], "edges": [list(e) for e in st["edges"]], "elements": st["lab"]},
+                    pattern={"n": ps["n"], "edges": [list(e) for e in ps["edges"]], "elements": ps["lab"]},
+                    expected=sorted(expected)[:12])
+        check_match(ctx, x, kind, p, st["idx"], ps["adj"], ps["lab"], st["adj"], st["lab"], expected, info, **kw)
+    return answers
+
+
+def queries_now(ctx, x, kind, salt, info0):
+    """all non-matching queries on a live object, against the graph it exposes now"""
+    st = state_of(x)
+    edges = [tuple(e) for e in st["edges"]]
+    info = dict(info0, n=st["n"], edges=[list(e) for e in edges], receiver=kind)
+    gref = graph_reference(ctx, st["n"], edges, st["adj"], salt)
+    check_queries(ctx, x, kind, st["n"], st["adj"], salt, info, gref)
+    return st, gref
+
+
+def check_interleaved(ctx, rng, x, kind, others, info0):
+    """several traversals alive at the same time (on the same object and on others), stepped in turn, with ring and
+    adjacency queries between the steps: every sequence is judged like a traversal that ran alone"""
+    R = REF
+    st = state_of(x)
+    n = st["n"]
+    br = R.bridges(n, [tuple(e) for e in st["edges"]])
+    runs = []
+
+    def add(obj, sto, s, d, with_dist, tag):
+        dist = R.bfs_dist(sto["adj"], s)
+        if d is None:
+            exp, alt = {v: k for v, k in dist.items() if v != s}, None
+        else:
+            exp = R.through(sto["adj"], s, d)
+            alt = {v: dist[v] for v in exp}
+        f = obj.yield_bfsd if with_dist else obj.yield_bfs
+        a_s = sto["atoms"][s] if rng.random() < 0.5 else s
+        gen = f(a_s) if d is None else f(a_s, sto["atoms"][d] if rng.random() < 0.5 else d)
+        op = ("bfsd" if with_dist else "bfs") + ("" if d is None else "-dir") + "-interleaved"
+        runs.append({"gen": gen, "op": op, "st": sto, "s": s, "exp": exp, "alt": alt, "with_dist": with_dist, "items": [],
+                     "info": dict(info0, n=sto["n"], edges=[list(e) for e in sto["edges"]], start=s, direction=d,
+                                  receiver=tag, alive_together=0)})
+
+    for t in range(rng.randint(2, 4)):
+        s = rng.randrange(n)
+        d = rng.choice(sorted(st["adj"][s])) if st["adj"][s] and rng.random() < 0.4 else None
+        add(x, st, s, d, rng.random() < 0.5, kind)
+    r0 = runs[0]
+    add(x, st, r0["s"], None, not r0["with_dist"], kind)  # the same start twice
+    for tag, y in others:
+        sty = state_of(y)
+        if sty["n"]:
+            add(y, sty, rng.randrange(sty["n"]), None, rng.random() < 0.5, tag)
+    alive = list(range(len(runs)))
+    tick = 0
+    failed = set()
+    while alive:
+        for gi in list(alive):
+            r = runs[gi]
+            r["info"]["alive_together"] = max(r["info"]["alive_together"], len(alive))
+            try:
+                r["items"].append(next(r["gen"]))
+            except StopIteration:
+                alive.remove(gi)
+                continue
+            except Exception as e:  # noqa
+                ctx.violation(f"{r['op']}:raises:{_exc(e)}", err=repr(e)[:200], **r["info"])
+                alive.remove(gi)
+                failed.add(gi)
+                continue
+            if len(r["items"]) > 2 * r["st"]["n"] + 4:
+                alive.remove(gi)
+            # between two steps: other queries on the same object
+            tick += 1
+            try:
+                if st["bonds"] and tick % 2 == 0:
+                    k = (tick // 2) % len(st["bonds"])
+                    ctx.count("interleaved.ring-query")
+                    got = bool(x.is_bond_in_ring(st["bonds"][k]))
+                    bridge = tuple(sorted(st["edges"][k])) in br
+                    if got and bridge:
+                        ctx.violation("ring-interleaved:bridge-reported-in-ring", bond=list(st["edges"][k]), **r["info"])
+                    if not got and not bridge:
+                        ctx.violation("ring-interleaved:ring-bond-reported-not-in-ring", bond=list(st["edges"][k]),
+                                      **r["info"])
+                elif tick % 2 == 1:
+                    v = tick % n
+                    got = sorted(st["idx"].get(id(a), -1) for a in take(x.connected_atoms(v), len(st["edges"]) + 2))
+                    if got != sorted(st["adj"][v]):
+                        ctx.violation("connected_atoms-interleaved:differs-from-bond-list", got=got,
+                                      expected=sorted(st["adj"][v]), atom=v, **r["info"])
+            except Exception as e:  # noqa
+                ctx.violation(f"query-between-traversal-steps:raises:{_exc(e)}", err=repr(e)[:200], **r["info"])
+    for gi, r in enumerate(runs):
+        if gi in failed:
+            continue
+        ctx.count("interleaved.traversal")
+        if r["info"]["alive_together"] >= 2:
+            ctx.count("interleaved.traversal.with-another-alive")
+        judge_traversal(ctx, r["op"], r["items"], r["with_dist"], r["st"]["idx"], r["s"], r["exp"], r["alt"], r["info"])
+
+
+def judge_exact(ctx, op, got, expected, structural, info):
+    """results of a search under caller-supplied matchers: exactly the reference set under those predicates"""
+    info = dict(info, got=sorted(got)[:12], n_got=len(got), n_expected=len(expected), expected=sorted(expected)[:12])
+    if len(set(got)) != len(got):
+        ctx.violation(f"{op}:duplicate-embedding", **info)
+    extra = sorted(set(got) - set(expected))
+    if extra:
+        why = structural(extra[0]) or "rejected-by-the-given-matcher"
+        ctx.violation(f"{op}:invalid-embedding:{why}", image=list(extra[0]), **info)
+    missed = sorted(set(expected) - set(got))
+    if missed:
+        ctx.violation(f"{op}:missed-embedding", missed=missed[:6], **info)
+
+
+def check_user_matchers(ctx, rng, x, kind, info0):
+    """match(pattern, node_match=f) / match(pattern, edge_match=f) / both: the caller's predicate replaces the
+    library's own for that kind of object and only for that kind; the answer is the set of induced embeddings under it.
+    The predicates are symmetric in their two arguments (no assumption on the order target / pattern)."""
+    R, L = REF, LIB
+    st = state_of(x)
+    n, adj, tlab = st["n"], st["adj"], st["lab"]
+    tb = {frozenset(e): b.btype.name for e, b in zip(st["edges"], st["bonds"])}
+    tq = [a.formal_charge for a in st["atoms"]]
+    verts = R.random_connected_subset(rng, adj, rng.randint(2, 4))
+    pedges = R.induced(verts, adj)
+    pn = len(verts)
+    padj = R.adjacency(pn, pedges)
+    plab = [WILD if rng.random() < 0.3 else tlab[v] for v in verts]
+    # (1) plain atoms, typed bonds: the target's own types, some replaced by another one (also by types the library's own
+    #     bond rule would refuse or cannot handle)
+    pb = {}
+    bspecs = []
+    for i, j in pedges:
+        t = tb[frozenset((verts[i], verts[j]))]
+        if rng.random() < 0.5:
+            t = rng.choice(["Single", "Double", "Triple", "Aromatic", "Dummy", "NotConnected", "H_Donor"])
+        pb[frozenset((i, j))] = t
+        bspecs.append({"i": i, "j": j, "btype": t})
+    p_typed = build_pattern("conn" if rng.random() < 0.5 else "mol", plab, pedges,
+                            aspecs=[{"element": e} for e in plab], bspecs=bspecs)
+    # (2) wildcard bonds, atoms with element and formal charge of the place they were drawn from (some charges changed)
+    pq = [tq[v] if rng.random() < 0.7 else rng.choice([0, 1, -1]) for v in verts]
+    pel = [tlab[v] for v in verts]
+    p_wild = build_pattern("mol" if rng.random() < 0.5 else "conn", pel, pedges)
+    for a, q in zip(p_wild.atoms, pq):
+        a.formal_charge = q
+
+    def any_pair(d1, d2):
+        return True
+
+    def same_btype(d1, d2):
+        return d1["btype"] == d2["btype"]
+
+    def same_element_and_charge(d1, d2):
+        return d1["element"] == d2["element"] and d1["formal_charge"] == d2["formal_charge"]
+
+    def el_rule(lab):
+        return lambda i, t: lab[i] == WILD or lab[i] == tlab[t]
+
+    jobs = [
+        ("edge_match-given-alone:any-bond", p_typed, {"edge_match": any_pair}, el_rule(plab), lambda pe, te: True),
+        ("edge_match-given-alone:equal-bond-type", p_typed, {"edge_match": same_btype}, el_rule(plab),
+         lambda pe, te: pb[pe] == tb[te]),
+        ("node_match-given-alone:any-atom", p_wild, {"node_match": any_pair}, lambda i, t: True, lambda pe, te: True),
+        ("node_match-given-alone:equal-element-and-charge", p_wild, {"node_match": same_element_and_charge},
+         lambda i, t: pel[i] == tlab[t] and pq[i] == tq[t], lambda pe, te: True),
+        ("both-matchers-given", p_typed, {"node_match": any_pair, "edge_match": same_btype}, lambda i, t: True,
+         lambda pe, te: pb[pe] == tb[te]),
+    ]
+    wild_lab = [WILD] * pn
+    for name, pat, kw, node_ok, edge_ok in jobs:
+        try:
+            expected = R.embeddings_pred(padj, adj, node_ok, edge_ok, cap=1500)
+        except R.TooMany:
+            ctx.count("user-matcher.skipped-too-many-embeddings")
+            continue
+        ctx.count("user-matcher." + name.split(":")[0])
+        ctx.count("user-matcher.expected-nonempty" if expected else "user-matcher.expected-empty")
+        if rng.random() < 0.34:
+            R.cross_check_embeddings_pred(pn, pedges, n, st["edges"], node_ok, edge_ok, expected)
+            ctx.count("ref.nx.embeddings-under-predicates")
+        info = dict(info0, receiver=kind, matcher=name,
+                    target={"n": n, "edges": [list(e) for e in st["edges"]], "elements": tlab,
+                            "btypes": [tb[frozenset(e)] for e in st["edges"]], "charges": tq},
+                    pattern={"n": pn, "edges": [list(e) for e in pedges],
+                             "elements": plab if pat is p_typed else pel,
+                             "btypes": [pb[frozenset(e)] for e in pedges] if pat is p_typed else "wildcard",
+                             "charges": None if pat is p_typed else pq})
+        op = "match:" + name
+        try:
+            got = results_of_match(ctx, op, x, pat, st["idx"], 2 * len(expected) + 8, info, **kw)
+        except NotImplementedError as e:
+            # only the library's own bond rule raises this: the caller's predicate was not the one asked
+            ctx.violation(f"{op}:raises:NotImplementedError", err=repr(e)[:200], **info)
+            continue
+        if got is not None:
+            judge_exact(ctx, op, got, expected,
+                        lambda img: R.embedding_defect(img, padj, wild_lab, adj, tlab, WILD), info)
+
+
+def large_answer_case(ctx, rng, g):
+    """targets and wildcard patterns with more than 1000 induced embeddings: none may be missed"""
+    R = REF
+    shape = rng.choice(["star", "star", "bipartite"])
+    if shape == "star":
+        leaves = rng.randint(33, 39)
+        n = leaves + 1
+        edges = [(0, i) for i in range(1, n)]
+        tlab = ["C"] + [rng.choice(["H", "H", "F"]) for _ in range(leaves)]
+        pedges = [(0, 1), (1, 2)]
+        plab = [WILD, rng.choice([WILD, "C"]), WILD]
+    else:
+        a = rng.choice([3, 4])
+        b = rng.randint(20, 26) if a == 3 else rng.randint(17, 22)
+        n = a + b
+        edges = [(i, a + j) for i in range(a) for j in range(b)]
+        tlab = ["N"] * a + ["C"] * b
+        pedges = [(0, 1), (1, 2)]
+        plab = [rng.choice([WILD, "C"]), rng.choice([WILD, "N"]), WILD]
+    perm = list(range(n))
+    rng.shuffle(perm)
+    edges = [(perm[i], perm[j]) if rng.random() < 0.5 else (perm[j], perm[i]) for i, j in edges]
+    lab = [None] * n
+    for i, e in enumerate(tlab):
+        lab[perm[i]] = e
+    rng.shuffle(edges)
+    order = [0, 1, 2]
+    rng.shuffle(order)
+    pedges = [(order[i], order[j]) for i, j in pedges]
+    pl = [None] * 3
+    for i, e in enumerate(plab):
+        pl[order[i]] = e
+    adj, padj = R.adjacency(n, edges), R.adjacency(3, pedges)
+    expected = R.embeddings_bt(padj, pl, adj, lab, WILD)
+    if len(expected) <= 1000:
+        raise RuntimeError(f"harness: large-answer case has only {len(expected)} embeddings")
+    aspecs = [atom_spec(rng, e, rich=True) for e in lab]
+    bspecs = [bond_spec(rng, i, j, rich=True, btypes=RAND_BTYPES) for i, j in edges]
+    kind = KINDS[g % 3]
+    x = build(kind, aspecs, bspecs, route=rng.randrange(3))
+    idx = graph_of(x)[2]
+    pobj = build_pattern("conn" if g % 2 else "mol", pl, pedges)
+    ctx.count("match.large-answer")
+    info = {"target": {"n": n, "shape": shape, "edges": [list(e) for e in edges], "elements": lab},
+            "pattern": {"n": 3, "edges": [list(e) for e in pedges], "elements": pl}, "expected": sorted(expected)[:6]}
+    via_match = rng.random() < 0.5
+    check_match(ctx, x, kind, pobj, idx, padj, pl, adj, lab, expected, info, do_match=via_match, do_substr=not via_match)
+
+
+def chunk_dyn(spec, ctx):
+    R, L = REF, LIB
+    for g in range(spec["lo"], spec["hi"]):
+        case = ["dyn", g]
+        if not ctx.want(case):
+            continue
+        rng = ctx.rng("dyn", g)
+        kind = KINDS[g % 3]
+        n = rng.randint(5, 13)
+        style, edges = R.random_graph(rng, n)
+        adj = R.adjacency(n, edges)
+        pal = rng.choice(DYN_PALETTES)
+        tlab = [rng.choice(pal) for _ in range(n)]
+        aspecs = [atom_spec(rng, e, rich=True) for e in tlab]
+        for i, a in enumerate(aspecs):  # labels that name one atom (mostly), so that the label form of AtomLike is usable
+            a["label"] = rng.choice([f"a{i}", f"a{i}", f"a{i}", "twin", None])
+        bspecs = [bond_spec(rng, i, j, rich=True, btypes=RAND_BTYPES) for i, j in edges]
+        ctx.case(case, dkey=("dyn", n, sorted(tuple(sorted(e)) for e in edges), tuple(tlab)),
+                 nontrivial=nontrivial(n, edges, adj),
+                 sample={"n": n, "style": style, "edges": [list(e) for e in edges], "elements": tlab, "receiver": kind})
+        ctx.count("dyn.cases")
+        salt = rng.randrange(6)
+        x = build(kind, aspecs, bspecs, route=rng.randrange(3), by_atom=rng.random() < 0.5)
+        if not same_graph(graph_of(x)[3], bspecs):
+            raise RuntimeError("harness: receiver exposes another graph than requested")
+        confs = [x[i] for i in range(x.n_conformers)] if kind == "ens" else []  # live views, made before any edit
+        st = state_of(x)
+        p_edit = subset_pattern(rng, st, rng.randint(2, 4), "conn" if g % 2 else "mol", rng.choice([0.0, 0.3, 0.6]))
+        p_keep = subset_pattern(rng, st, rng.randint(1, 3), "mol" if g % 2 else "conn", rng.choice([0.0, 0.3]))
+        prev = {}
+        # --- (1) the same receiver and the same pattern objects, edited between the calls
+        for step in range(DYN_STEPS + 1):
+            after = "nothing"
+            if step:
+                if step % 2 == 1:
+                    after = "target:" + edit_graph(rng, x, pal, wild=False, allow_atoms=kind != "ens", max_atoms=15)
+                    ctx.count("dyn.target-edit." + after[7:])
+                    if after[7:] in ("element-changed", "bond-moved", "bond-repointed", "bond-type-changed", "connect_like"):
+                        ctx.count("dyn.target-edit.counts-kept")
+                else:
+                    after = "pattern:" + edit_graph(rng, p_edit, list(pal) + [WILD], wild=True, allow_atoms=True,
+                                                    max_atoms=5)
+                    ctx.count("dyn.pattern-edit." + after[8:])
+            recv, rkind = x, kind
+            if confs and step % 2 == 1:
+                recv, rkind = confs[(step // 2) % len(confs)], "conformer"
+            info0 = {"after": after, "step": step}
+            st, _ = queries_now(ctx, recv, rkind, salt, info0)
+            pats = [("edited-between-calls", p_edit), ("kept", p_keep),
+                    ("fresh", subset_pattern(rng, st, rng.randint(1, 4), "conn", rng.choice([0.0, 0.3, 1.0]),
+                                             connected=rng.random() < 0.75))]
+            ans = match_objects(ctx, recv, rkind, pats, info0, "dyn.match.decide", xref=step % 3 == 0)
+            if step:
+                ctx.count("dyn.match.after-edit", len(ans))
+                for role in ("edited-between-calls", "kept"):
+                    if role in ans and role in prev and ans[role] != prev[role]:
+                        ctx.count("dyn.match.answer-changed-by-edit")
+                        ctx.count("dyn.match.answer-changed-by-" + after.split(":")[0] + "-edit")
+            prev = ans
+        # --- (2) views and receivers that lent their atoms
+        st = state_of(x)
+        views = [("conformer", c) for c in confs]
+        if kind in ("mol", "ens") and st["n"] >= 2:
+            from molli.chem import Substructure
+            owner = x if kind == "mol" else confs[rng.randrange(len(confs))]
+            for t in range(2):
+                subset = rng.sample(range(st["n"]), rng.randint(2, st["n"]))
+                try:
+                    sub = Substructure(owner, subset if t else [st["atoms"][v] for v in subset])
+                except Exception:  # noqa  (making the view is not a query of this property; REQUIRED sees the lack)
+                    ctx.count("view.substructure.could-not-be-made")
+                    continue
+                got = sorted(sorted(subset[i] for i in e) for e in graph_of(sub)[3])
+                want = sorted(sorted(subset[i] for i in e) for e in R.induced(subset, st["adj"]))
+                if got != want or [st["idx"][id(a)] for a in sub.atoms] != subset:
+                    raise RuntimeError(f"harness: Substructure on {subset} exposes {got}, induced subgraph is {want}")
+                views.append(("substructure", sub))
+        for vkind, v in views:
+            ctx.count("view." + vkind)
+            info0 = {"after": "view-made", "view_of": kind}
+            stv, _ = queries_now(ctx, v, vkind, salt, info0)
+            pats = [("kept", p_keep), ("edited-between-calls", p_edit),
+                    ("fresh", subset_pattern(rng, stv, rng.randint(1, 4), "mol", rng.choice([0.0, 0.3])))]
+            match_objects(ctx, v, vkind, pats, info0, "view.match.decide")
+        # the atoms are handed to another object (which is kept alive): the receiver still lists them, its answers stay
+        k0 = rng.randrange(st["n"])
+        borrowed = list(st["atoms"])[k0:] + (list(st["atoms"])[:k0] if rng.random() < 0.5 else [])
+        borrower = (L.Connectivity if rng.random() < 0.5 else L.Molecule)(borrowed)
+        ctx.count("lent-atoms.receivers")
+        info0 = {"after": "atoms-lent-to-another-object", "lent_from": k0}
+        st, gref = queries_now(ctx, x, kind, salt, info0)
+        pats = [("kept", p_keep), ("fresh", subset_pattern(rng, st, rng.randint(2, 4), "conn", 0.3))]
+        match_objects(ctx, x, kind, pats, info0, "lent-atoms.match.decide")
+        if borrower.n_atoms != len(borrowed):
+            raise RuntimeError("harness: borrower lost atoms")
+        # --- (3) traversals alive together
+        others = [(vk, v) for vk, v in views[-2:]]
+        if not others:
+            others = [("copy", type(x)(x))]
+        check_interleaved(ctx, rng, x, kind, others, {"after": "edits"})
+        if views:
+            vk, v = views[-1]
+            check_interleaved(ctx, rng, v, vk, [(kind, x)], {"after": "edits"})
+        # --- (4) caller-supplied matchers
+        for t in range(2):
+            check_user_matchers(ctx, rng, x if t == 0 or not views else views[-1][1],
+                                kind if t == 0 or not views else views[-1][0], {"after": "edits"})
+        # --- (5) large answers
+        if g % 10 == 0:
+            large_answer_case(ctx, rng, g)
+
+
 def run_chunk(spec, ctx):
     import time
 
@@ -836,6 +1487,8 @@ def _run_chunk(kind, spec, ctx):
         chunk_xmatch(spec, ctx)
     elif kind == "rand":
         chunk_rand(spec, ctx)
+    elif kind == "dyn":
+        chunk_dyn(spec, ctx)
     else:
         raise ValueError(kind)
 
